@@ -26,6 +26,15 @@ CLAIMED = {
              'strings, .fill/.zero/.zerountil are assembled by the real CLI under both endiannesses and terminator values; every '
              'line\'s bytes in the image must equal the byte model. One open known finding (character literal first in a list).',
         note='Trusted: the byte rules in vf/oracles/c11.py + vf/model/layout.py; strings avoid ";" and unescaped delimiters.'),
+    'C03': dict(
+        category='exploration', design_ref='DESIGN.md §3 C03',
+        technique='runtime monitoring: memory-map model oracle over real CLI runs with start/end/fill windows; audit-hook '
+                  'monitor of write-opens',
+        text='Sparse generated programs (shuffled origins, multi-byte and zero-length lines, muted regions, predefined data, '
+             'varied last line) are assembled by the real CLI under boundary-driven -s/-e/-f windows; the file must equal '
+             '[M.get(a, fill) for a in start..end] for the model memory map M. thorough adds an exhaustive (start,end) grid '
+             'over 20 fixed programs. Held on the executions observed only.',
+        note='Trusted: vf/model/layout.py and the fixed layout ISA encoder; overlapping programs are out of scope here.'),
     'C07': dict(
         category='exploration', design_ref='DESIGN.md §3 C07',
         technique='runtime monitoring: reference-model oracle (exact-arithmetic evaluator + independent grammar recogniser) '
